@@ -208,6 +208,63 @@ example : (init exG exX0).map (fun s0 => (change exG (runHist exG s0 (exHist.tak
   decide
 example : (init exG exX0).map (fun s0 => diffVec exG s0 [1, 2]) = some [(1, 2)] := by decide
 
+/-! ### histories of `testoptparvector` calls (what an optimiser actually issues) (added by the audit) -/
+
+/-- a whole history of `calculator(values)` calls; each call's change list depends on the state it meets -/
+def runCalls (g : Graph V) : St V → List (List V) → St V
+  | s, [] => s
+  | s, v :: vs => runCalls g (call g s v).1 vs
+
+/-- every history of `testoptparvector` calls is a history of valid `change` calls, so every theorem
+above stated for `runHist` applies to optimiser-driven histories -/
+theorem calls_are_valid_changes (g : Graph V) (s0 : St V) (vs : List (List V)) :
+    ∃ hist, (∀ c, c ∈ hist → ValidCh g c) ∧ runCalls g s0 vs = runHist g s0 hist := by
+  induction vs generalizing s0 with
+  | nil => exact ⟨[], by simp, rfl⟩
+  | cons v vs ih =>
+    obtain ⟨h, hv, he⟩ := ih (call g s0 v).1
+    refine ⟨diffVec g s0 v :: h, ?_, ?_⟩
+    · intro c hc
+      rcases List.mem_cons.1 hc with rfl | hc
+      · exact call_changes_valid g s0 v
+      · exact hv c hc
+    · simp only [runCalls, runHist]
+      exact he
+
+/-- **calls_consistent**: after ANY history of `calculator(x)` calls (succeeding, exactly reverting,
+raising) every cell of the current buffer equals a fresh evaluation at the vector the calculator
+reports; no hypothesis on the vectors at all -/
+theorem calls_consistent (g : Graph V) (hwf : g.WF) (x0 : Nat → V) (s0 : St V)
+    (h0 : init g x0 = some s0) (vs : List (List V)) :
+    evalFresh g (runCalls g s0 vs).lastValues = some (curValues g (runCalls g s0 vs)) := by
+  obtain ⟨hist, hv, he⟩ := calls_are_valid_changes g s0 vs
+  rw [he]
+  exact calc_consistent g hwf x0 s0 h0 hist hv
+
+/-- **calls_last_correct**: if the last call of a history of calls succeeds, the calculator is at the
+requested vector and the value returned is `f(values)` computed from scratch -/
+theorem calls_last_correct (g : Graph V) (hwf : g.WF) (x0 : Nat → V) (s0 : St V)
+    (h0 : init g x0 = some s0) (vs : List (List V)) (hpos : 0 < g.n) (values : List V) (v : V)
+    (hr : (call g (runCalls g s0 vs) values).2 = some v) :
+    (∀ j, j < g.nOpt → (call g (runCalls g s0 vs) values).1.lastValues j = values.getD j default) ∧
+    (evalFresh g (call g (runCalls g s0 vs) values).1.lastValues).map (fun l => l.getD (g.n - 1) default)
+      = some v := by
+  obtain ⟨hist, hv, he⟩ := calls_are_valid_changes g s0 vs
+  rw [he] at hr ⊢
+  exact call_correct g hwf x0 s0 h0 hist hv hpos values v hr
+
+/-- non-vacuity: the same walk as `exHist` issued as calls: (4,1), back to (1,1) (undo path), (3,2),
+(4,2) raises, (3,0); then a successful call to (2,5) returns f(2,5) = 2*8+2 times 6 = 108 -/
+def exCalls : List (List Int) := [[4, 1], [1, 1], [3, 2], [4, 2], [3, 0]]
+example : (init exG exX0).map (fun s0 => curValues exG (runCalls exG s0 exCalls)) = some [3, 1, 4, 11, 11] := by
+  decide
+example : (init exG exX0).map (fun s0 => (call exG (runCalls exG s0 (exCalls.take 3)) [4, 2]).2) = some none := by
+  decide
+example : (init exG exX0).map (fun s0 => (call exG (runCalls exG s0 exCalls) [2, 5]).2) = some (some 108) := by
+  decide
+example : (init exG exX0).map (fun s0 => lastVec exG (call exG (runCalls exG s0 exCalls) [2, 5]).1) = some [2, 5] := by
+  decide
+
 /-! ## the ParameterController layer (dirty set, `updates_postponed`) -/
 section controller
 open CogentModel.Ctl
@@ -284,6 +341,52 @@ theorem controller_setting_last_assigned (g : Ctl.Graph V) (s : Ctl.St V) (k : N
     | nil => rfl
     | cons o r => simp only []; rw [hui]
 
+/-- values are determined by the settings: two states with the same leaf settings in which every
+definition is locally consistent hold the same values (added by the audit) -/
+theorem localOK_unique (g : Ctl.Graph V) (hwf : Ctl.WF g) (s t : Ctl.St V)
+    (hset : ∀ k, k < g.length → t.setting k = s.setting k)
+    (hs : ∀ k, k < g.length → LocalOK g s k) (ht : ∀ k, k < g.length → LocalOK g t k) :
+    ∀ k, k < g.length → t.values k = s.values k := by
+  intro k
+  induction k using Nat.strongRecOn with
+  | _ k ih =>
+    intro hk
+    have h1 := hs k hk
+    have h2 := ht k hk
+    unfold LocalOK at h1 h2
+    cases hd : Ctl.defn g k with
+    | leaf =>
+      simp only [hd] at h1 h2
+      rw [h1, h2, hset k hk]
+    | derived args f =>
+      simp only [hd] at h1 h2
+      rw [h1, h2]
+      congr 1
+      apply List.map_congr_left
+      intro a ha
+      have hak : a < k := hwf k hk a (by simp [hd, Defn.args, ha])
+      exact ih a hak (by omega)
+
+/-- **controller_equals_fresh** (the property as worded, for the controller model): after ANY
+history, whenever no block is open, every definition's value equals the value in a NEWLY BUILT
+controller (`Ctl.init`) given the same final settings (added by the audit) -/
+theorem controller_equals_fresh (g : Ctl.Graph V) (hwf : Ctl.WF g) (setting : Nat → V)
+    (hist : List (Op V)) (hst : (Ctl.run g (Ctl.init g setting) hist).stack = []) :
+    ∀ k, k < g.length →
+      (Ctl.run g (Ctl.init g setting) hist).values k
+        = (Ctl.init g (Ctl.run g (Ctl.init g setting) hist).setting).values k := by
+  have hA := ((controller_consistent g hwf setting hist).2 hst).2.2
+  have hJ0 : J g (Ctl.init0 g (Ctl.run g (Ctl.init g setting) hist).setting) := by
+    intro k hk hkc; exact absurd (by simpa [Ctl.init0] using hk) hkc
+  obtain ⟨_, _, _, hstack, hsetting⟩ := updateIntermediate_spec g hwf _ hJ0
+  have hB := (controller_consistent g hwf (Ctl.run g (Ctl.init g setting) hist).setting []).2
+  simp only [Ctl.run] at hB
+  have hB' := (hB (by show (Ctl.updateIntermediate g _).stack = []; rw [hstack]; rfl)).2.2
+  intro k hk
+  exact (localOK_unique g hwf _ _ (fun j _ => by
+    show (Ctl.updateIntermediate g _).setting j = _
+    rw [hsetting]; rfl) hA hB' k hk).symm
+
 /-- non-vacuity, including a block left by an exception followed by a further assignment: the
 derived values follow (this is the history that was the defect before updates_postponed got its
 try/finally) -/
@@ -305,6 +408,14 @@ example :
     let g : Ctl.Graph Int := [.leaf, .leaf, .derived [0, 1] (fun l => l.foldl (· + ·) 0), .derived [2, 0] (fun l => l.foldl (· * ·) 1)]
     let s := Ctl.run g (Ctl.init g (fun _ => 1)) [.enter, .assign 0 5, .enter, .assign 1 2, .exit, .assign 0 3, .exit]
     s.stack = [] ∧ (List.range 4).map s.values = [3, 2, 5, 15] := by
+  decide
+
+/-- non-vacuity of `controller_equals_fresh`: nested blocks, then compared with a newly built controller -/
+example :
+    let g : Ctl.Graph Int := [.leaf, .leaf, .derived [0, 1] (fun l => l.foldl (· + ·) 0), .derived [2, 0] (fun l => l.foldl (· * ·) 1)]
+    let s := Ctl.run g (Ctl.init g (fun _ => 1)) [.enter, .assign 0 5, .enter, .assign 1 2, .exit, .assign 0 3, .exit]
+    s.stack = [] ∧ (List.range 4).map s.values = (List.range 4).map (Ctl.init g s.setting).values ∧
+      (List.range 4).map (Ctl.init g s.setting).values = [3, 2, 5, 15] := by
   decide
 
 end controller
@@ -358,6 +469,20 @@ example : (exportRules exD (runRules exD (Rules.fresh exD) exRules)).length = 3 
     (runRules exD (Rules.fresh exD) exRules).setting 1 = .var 1 4 4 ∧
     (runRules exD (Rules.fresh exD) exRules).setting 2 = .const 2 := by decide
 example : exD.dLo ≤ exD.dVal ∧ exD.dVal ≤ exD.dHi := by decide
+
+/-- the failing calls of a history (added by the audit): an edge named twice and an edge that is not in
+the tree raise `InvalidScopeError` (as the current `interpret_scope` does), `upper < lower` raises
+`ValueError`, a constant with a bound raises `AssertionError`; none of them changes the state -/
+def exBad : List RuleArgs :=
+  [ { edges := some [1, 1], isIndependent := none, isConstant := false, value := none, init := some 2, lower := none, upper := none },
+    { edges := some [0, 4], isIndependent := none, isConstant := false, value := none, init := some 2, lower := none, upper := none },
+    { edges := some [3], isIndependent := none, isConstant := false, value := none, init := none, lower := some 5, upper := some 2 },
+    { edges := some [3], isIndependent := none, isConstant := true, value := some 1, init := none, lower := some 5, upper := none } ]
+example : exBad.map (fun r => match setRule exD (runRules exD (Rules.fresh exD) exRules) r with
+    | .error e => e
+    | .ok _ => "ok") = ["InvalidScopeError", "InvalidScopeError", "ValueError", "AssertionError"] := by decide
+example : (exportRules exD (runRules exD (Rules.fresh exD) (exRules ++ exBad))).length = 3 ∧
+    Rules.nfp exD (runRules exD (Rules.fresh exD) (exRules ++ exBad)) = 2 := by decide
 
 /- NOT covered by rules_roundtrip (exercised by the likelihood-function differential only): that equal
 settings on every edge give an equal log-likelihood (that is C02), non-scalar parameters (motif
